@@ -329,10 +329,11 @@ func (s *Storer) newAofROpenObserver(reader *AofRotateReader, ra *dataSet) func(
 		if aof != nil {
 			aof.AddReader(reader)
 		}
-		// a reader that moves on to its next segment is registered with no segment for a moment: a reset of
-		// the dataset in that moment cannot see it, and it would poll the removed file for ever
+		// a reader that moves on to its next segment is registered with no segment for a moment. A reset of the
+		// dataset, or the removal of that next segment (the empty last segment of a writer that ended), in that
+		// moment cannot see it: it would poll the removed file for ever and nothing could end it any more.
 		// (not from this goroutine: the notification arrives with the reader's mutex held, which its close takes)
-		if ra.IsClosed() {
+		if aof == nil || ra.IsClosed() || ra.FindAof(offset) != aof {
 			usync.SafeGo(func() { reader.Close() }, nil)
 		}
 	}
